@@ -434,6 +434,50 @@ def r08_16(run, model):
            f"`{a}` = {S.norm_ws(run.facts.text(LIFT, init['sp']))[:70] if init is not None else '?'}; LiftFn params come from {sorted(src)}")
 
 
+def r08_17(run, model):
+    run.rule("R08.17", "a reference to a local has the type its binding was converted to: in transform_expr's variable arm every local found "
+                       "in the conversion scope is typed from its scope entry (the environment struct, or the converted type recorded at the "
+                       "binding); the type Mono wrote is kept only for names the scope does not know - a tuple holding a closure, or a "
+                       "function value returning one, otherwise keeps a function type its elements no longer have")
+    f = model.fn("transform_expr", LIFT)
+    arm = None
+    for m_ in S.find(f.body, "Match"):
+        for a in m_["arms"]:
+            if re.match(r"MonoExpr::EVar\{", S.norm_ws(run.facts.text(LIFT, a["pat"]["sp"]))):
+                arm = a
+        break
+    if arm is None:
+        raise AnalysisIncomplete("transform_expr: the arm for variables was not found")
+    incoming = [b for b in S.pat_bindings(arm["pat"]) if b == "ty"]
+    plain = []
+    for iff in S.find(arm["body"], "If"):
+        for l in S.walk(iff["cond"]):
+            if l["k"] == "Let" and l["expr"]["k"] == "MethodCall" and l["expr"]["method"] == "get" and S.is_path(l["expr"]["recv"], "scope"):
+                plain.append((iff, l))
+    ok = bool(plain)
+    detail = "no `if let Some(entry) = scope.get(&name)`: the scope lookup is narrowed before it decides"
+    if plain:
+        iff, l = plain[0]
+        binder = S.pat_bindings(l["pat"])
+        evars = [st for st in S.find(iff["then"], "Struct") if st["segs"][-1] == "EVar"]
+        leaks = []
+        for st in evars:
+            tf = next((fl for fl in st["fields"] if fl["name"] == "ty"), None)
+            if tf is not None and incoming and S.idents(tf["expr"]) == set(incoming):
+                leaks.append(st)
+        ok = bool(evars) and not leaks
+        detail = f"{len(evars)} variable node(s) built for a local of the scope, {len(leaks)} keep the incoming type (entry bound as {binder})"
+    run.ob("R08.17", "transform_expr|a local of the conversion scope is typed from its scope entry", ok, site(LIFT, arm["sp"]), detail,
+           witness="let pair = (add_base, 7); let h = pair.0; h(1): `pair` keeps Mono's type, the call through h is not routed to the apply function; "
+                   "Go declares `var h func(int32) int32 = pair._0` over a struct value")
+
+
+def r08_18(run, model):
+    """a top-level generic function used as a value inside another generic function is specialised at the substituted use type (shared with C07 R07.20)"""
+    from rules import c07
+    c07.r07_20(run, model)
+
+
 def r08_15(run, model):
     from rules import c07
     c07.r07_8(run, model, only=("EClosure",))
@@ -464,6 +508,8 @@ def run(run, model):
     # instantiated gives an apply function declared `-> T` (shared with C07 R07.8, closure nodes only)
     run.try_rule(r08_15, model)
     run.try_rule(r08_16, model)
+    run.try_rule(r08_17, model)
+    run.try_rule(r08_18, model)
     run.try_rule(r08_1, model)
     run.try_rule(r08_2, model)
     run.try_rule(r08_3, model)
